@@ -28,7 +28,7 @@ ANCHORS = ["SymbolGraph.add_relation", "SymbolGraph.relation_exists", "SymbolGra
 def plan(tier):
     return {"cases": 1500 if tier == "quick" else 30000, "shards": 16, "case_timeout": 60, "shard_timeout": 3000,
             "min_nontrivial": 100,
-            "min_counters": {"suffix_assertions": 3000, "prefix_instances_reclaimed": 5000, "index_audits": 1000,
+            "min_counters": {"suffix_assertions": 3000, "prefix_instances_reclaimed": 5000,
                              "relations_compared": 5000}}
 
 
@@ -58,7 +58,21 @@ def gen(rng, tier, ctx):
     rng.shuffle(names)
     # a chief needs its person first
     suffix = [[rng.choice(KINDS), rng.randrange(100), rng.randrange(100), rng.randrange(100)] for _ in range(rng.randint(1, 10))]
-    return {"prefix": prefix, "objects": names, "suffix": suffix, "sweep": rng.choice(["sweep", "sweep", "nosweep"])}
+    if rng.random() < 0.5:
+        # mirror: rustworkx hands freed node indices back last-in-first-out, so creating the same classes in reverse
+        # order and asserting the same relations puts new instances on the node indices of dead related pairs
+        last = prefix[-1]
+        names, cnt = [], {"person": 0, "org": 0, "chief": 0}
+        for cn in reversed(last["create"]):
+            kind = "chief" if cn == "Chief" else ("org" if cn in ("Org", "Dept") else "person")
+            names.append([kind, cn, f"{kind[0]}{cnt[kind]}"])
+            cnt[kind] += 1
+        if not any(n[0] == "person" for n in names):
+            names.append(["person", "Person", "p0"])
+        if not any(n[0] == "org" for n in names):
+            names.append(["org", "Org", "o0"])
+        suffix = [[k, i, j, i + j] for k, i, j in last["relate"]][:12] or suffix
+    return {"prefix": prefix, "objects": names, "suffix": suffix, "sweep": rng.choice(["sweep", "sweep", "sweep", "nosweep"])}
 
 
 def witnesses():
@@ -151,7 +165,9 @@ def audit_index(sg, C, problems, label):
             if not ok:
                 stale += 1
     if stale:
-        problems.append(f"{label}: {stale} entries of the relation index do not correspond to an edge between live nodes")
+        # an observation, not a verdict: an implementation may legitimately keep stale entries and validate them on
+        # lookup; what the property forbids is their *effect*, which the differential below decides
+        C["stale_relation_index_entries_seen"] += stale
 
 
 def _prefix_round(om, rnd, C):
